@@ -154,3 +154,31 @@ Definition check_case (c : case) : N :=
   if negb (inputs_ok c) then 9
   else if negb (spec_okb c) then 2
   else if model_agrees c then 0 else 1.
+
+(* ---- reader-side gaps: a writer cycle injected between two lock acquisitions of ONE reader operation ---- *)
+Record rcase := {
+  r_keep : N;
+  r_pre : list (snapshot * Z * Z);       (* successful cycles before the operation: data, t_upd, t_done *)
+  r_probe : probe;
+  r_extra : snapshot * Z * Z;            (* the cycle run by the harness if the reader comes back for a second lock acquisition *)
+  ri_arrivals : N;                       (* lock acquisitions the operation made *)
+  ri_injected : bool;                    (* whether the extra cycle was run in between *)
+  ri_reply : reply }.
+
+Definition r_state (c : rcase) : srv :=
+  fold_left (fun s x => let '(d, t1, t2) := x in cycle s d true t1 t2) (r_pre c) (srv_init (r_keep c)).
+
+Definition r_issued (c : rcase) : issued := fold_left (fun i x => spec_update i (fst (fst x))) (r_pre c) [].
+
+(* the reply must be what a client may observe at ONE instant: before the injected cycle or after it *)
+Definition rspec_okb (c : rcase) : bool :=
+  let iss0 := r_issued c in
+  let iss1 := spec_update iss0 (fst (fst (r_extra c))) in
+  answer_ok (r_keep c) iss0 (nonempty_iss iss0) (r_probe c) (ri_reply c)
+  || (ri_injected c && answer_ok (r_keep c) iss1 true (r_probe c) (ri_reply c)).
+
+Definition check_rcase (c : rcase) : N :=
+  if negb (forallb (fun x => snap_sortedb (fst (fst x))) (r_extra c :: r_pre c)) then 9
+  else if negb (rspec_okb c) then 2
+  else if (ri_arrivals c =? 1) && negb (ri_injected c) && answer_eqb (respond (r_state c) (r_probe c)) (ri_reply c)
+       then 0 else 1.
